@@ -132,6 +132,11 @@ class ForeignGen:
                 m[ident] = (cur if isinstance(cur, list) else [cur]) + [rec]      # record array for a repeated identifier
             else:
                 m[ident] = [rec] if r.random() < 0.1 else rec
+            if kind in ELEMENTS and r.random() < 0.12:
+                # the same element stated once more without any attribute ({}), before or after the described statement
+                cur = m[ident]
+                lst = cur if isinstance(cur, list) else [cur]
+                m[ident] = ([{}] + lst) if r.random() < 0.5 else (lst + [{}])
         if r.random() < 0.2:
             # an identifier carrying an *array* of memberships, some listing several entities
             ident = self.name(prefixes, default) if r.random() < 0.5 else "_:mm%d" % r.randint(1, 9)
